@@ -17,7 +17,7 @@ import z3
 from . import solve
 from .frontend import Program, FuncInfo
 from .values import (
-    forall,
+    forall, I,
     ANY, BOOL, FUNC, INT, NONE, STR, XINT, LIST, OPT, REF, SET, TUPLE, UNION, Ty, Val, VNONE,
     Heap, fresh, from_int, to_int, vbool, vint, vlist, vref, vxint, I, B, CALLREF,
 )
@@ -413,7 +413,11 @@ class Engine:
             return Val(INT, fresh(name))
         if k == "bool":
             return Val(BOOL, fresh(name, B))
-        if k in ("ref", "list", "any", "deque"):
+        if k == "dict":
+            return Val(ty, (fresh(name + "_has", z3.ArraySort(I, B)), fresh(name + "_val", z3.ArraySort(I, I))))
+        if k == "enum":
+            return Val(ty, fresh(name))
+        if k in ("ref", "list", "any", "deque", "ext"):
             t = fresh(name)
             if st is not None:
                 st.assume(t < st.heap.alloc)
@@ -548,6 +552,8 @@ class Engine:
                 res = f.value if f.status == "ret" and f.value is not None else VNONE
                 if res.ty.kind == "cacheval" and contract.ret is not None:
                     res = from_int(contract.ret, res.t[1])   # a cached entry returned as the method's result
+                if res.ty.kind == "emptydict" and contract.ret is not None and contract.ret.kind == "dict":
+                    res = self.as_dict(res)
                 if res.ty.kind == "opt" and contract.ret is not None and contract.ret.kind not in ("opt", "none"):
                     # an Optional value returned where the contract promises a value
                     self.oblige(f, "returns-a-value-not-None", z3.Not(res.aux), "post")
@@ -951,6 +957,22 @@ class Engine:
                     continue
                 out.extend(self.set_attr(obj, tgt.attr, v, s2, tgt))
             return out
+        if isinstance(tgt, ast.Subscript) and isinstance(tgt.value, ast.Name) and tgt.value.id in st.env \
+                and st.env[tgt.value.id].ty.kind in ("dict", "emptydict"):
+            # dicts are local values: `d[k] = v` rebinds the local
+            out = []
+            for s2, idx in self.ev(tgt.slice, st):
+                if s2.status != "run":
+                    out.append(s2)
+                    continue
+                d = self.as_dict(s2.env[tgt.value.id])
+                from .values import DICT
+                has, val = d.t
+                vty = v.ty if d.ty.arg is None or d.ty.arg.kind == "any" else d.ty.arg
+                s2.env[tgt.value.id] = Val(DICT(idx.ty, vty), (z3.Store(has, to_int(idx), z3.BoolVal(True)),
+                                                               z3.Store(val, to_int(idx), to_int(v))))
+                out.append(s2)
+            return out
         if isinstance(tgt, ast.Subscript):
             out = []
             for s2, (lst, idx) in self.ev_many([tgt.value, tgt.slice], st):
@@ -960,6 +982,15 @@ class Engine:
                 out.extend(self.set_item(lst, idx, v, s2, tgt))
             return out
         raise OutsideSubset(f"assignment target {type(tgt).__name__}")
+
+    def as_dict(self, v: Val) -> Val:
+        """a local dict value; `{}` is the empty one"""
+        if v.ty.kind == "dict":
+            return v
+        if v.ty.kind == "emptydict":
+            from .values import DICT
+            return Val(DICT(ANY, ANY), (z3.K(I, z3.BoolVal(False)), z3.K(I, z3.IntVal(0))))
+        raise OutsideSubset(f"{v.ty} used as a dict")
 
     def set_attr(self, obj: Val, attr, v: Val, st: State, node):
         if obj.ty.kind != "ref":
@@ -1241,8 +1272,10 @@ class Engine:
 
     def fresh_like(self, v: Val, name, st):
         k = v.ty.kind
-        if k in ("int", "bool", "ref", "list", "any", "xint", "deque", "set", "callref"):
+        if k in ("int", "bool", "ref", "list", "any", "xint", "deque", "set", "callref", "ext", "enum", "dict"):
             return self.fresh_val(v.ty, name + "_h", st, nonnull=False)
+        if k == "emptydict":
+            return self.fresh_val(self.as_dict(v).ty, name + "_h", st)
         if k == "opt":
             return self.fresh_val(v.ty, name + "_h", st)
         if k == "tuple":
@@ -1284,7 +1317,7 @@ class Engine:
             return vxint(z3.If(c, a.t, b.t), z3.If(c, a.aux, b.aux))
         if a.ty.kind == "bool" and b.ty.kind == "bool":
             return vbool(z3.If(c, a.t, b.t))
-        if a.ty.kind in ("int", "ref", "list", "any") and b.ty.kind in ("int", "ref", "list", "any", "none"):
+        if a.ty.kind in ("int", "ref", "list", "any", "ext") and b.ty.kind in ("int", "ref", "list", "any", "none", "ext"):
             bt = b.t if b.ty.kind != "none" else z3.IntVal(0)
             return Val(a.ty, z3.If(c, a.t, bt))
         if a.ty.kind == "none" and b.ty.kind in ("ref", "list", "any"):
@@ -1336,6 +1369,9 @@ class Engine:
             return [(st, vint(v))]
         if isinstance(v, str):
             return [(st, Val(STR, v))]
+        if isinstance(v, float):
+            # an opaque value: may be passed on (e.g. to a library call), never computed with
+            return [(st, Val(Ty("float"), None))]
         raise OutsideSubset(f"constant {v!r}")
 
     def ev_JoinedStr(self, e, st):
@@ -1365,6 +1401,9 @@ class Engine:
         g = getattr(self.cur, "globals", {}).get(e.id)
         if g is not None:
             return [(st, g)]
+        mc = self.prog.module_consts.get(self.cur_fi.file, {}).get(e.id) if self.cur_fi else None
+        if mc is not None:
+            return self.ev(mc, st)   # module-level constant of the file the function lives in
         raise OutsideSubset(f"unknown name {e.id} at line {e.lineno}")
 
     def ev_Tuple(self, e, st):
@@ -1422,6 +1461,15 @@ class Engine:
             raise OutsideSubset(f"class attribute {obj.t}.{attr}")
         if k in ("list", "deque", "set", "cachedict"):
             return [(st, Val(Ty("listmethod"), (obj, attr)))]
+        if k == "ext":
+            from .library import EXT_MODELS
+            if (obj.ty.arg, attr) in EXT_MODELS:
+                return [(st, Val(FUNC, ("ext", obj.ty.arg, attr, obj)))]
+            if (obj.ty.arg, "." + attr) in EXT_MODELS:      # a modelled attribute
+                return EXT_MODELS[(obj.ty.arg, "." + attr)](self, node, st, obj)
+            raise OutsideSubset(f"no trusted contract for {obj.ty.arg}.{attr} (line {node.lineno})")
+        if k == "enum" and attr in ("value", "name"):
+            return [(st, Val(INT, obj.t))]
         if k == "classof" and attr == "__name__":
             # the class name of the object's dynamic class, represented by its class tag
             return [(st, Val(Ty("int"), st.heap.get("$type", obj.t)))]
@@ -1475,7 +1523,7 @@ class Engine:
         out = [(b, None) for b in bad]
         if okst is not None:
             v = from_int(ty, okst.heap.get(attr, obj.t))
-            if v.ty.kind in ("ref", "list", "any", "deque"):
+            if v.ty.kind in ("ref", "list", "any", "deque", "ext"):
                 # references stored in the heap exist: below the allocation counter; a field array
                 # never written on this path still holds entry-state references (< alloc at entry)
                 untouched = self.h0 is not None and okst.heap.farr(attr).eq(self.h0.farr(attr))
@@ -1507,6 +1555,19 @@ class Engine:
             if z3.is_int_value(z3.simplify(idx.t)):
                 return [(st, base.t[z3.simplify(idx.t).as_long()])]
             raise OutsideSubset("symbolic tuple index")
+        if base.ty.kind in ("dict", "emptydict"):
+            d = self.as_dict(base)
+            okst, bad = self.split(st, z3.Select(d.t[0], to_int(idx)), "KeyError", node)
+            out = [(b, None) for b in bad]
+            if okst is not None:
+                out.append((okst, from_int(d.ty.arg or ANY, z3.Select(d.t[1], to_int(idx)))))
+            return out
+        if base.ty.kind == "ext":
+            from .library import EXT_MODELS
+            m = EXT_MODELS.get((base.ty.arg, "__getitem__"))
+            if m is None:
+                raise OutsideSubset(f"no trusted contract for subscripting a {base.ty.arg}")
+            return m(self, node, st, base, idx)
         if base.ty.kind not in ("list", "deque"):
             raise OutsideSubset(f"subscript of {base.ty} at line {node.lineno}")
         h = st.heap
@@ -1578,7 +1639,7 @@ class Engine:
             return v.t != 0
         if k in ("list", "deque"):
             return st.heap.len(v) > 0
-        if k in ("ref", "any", "callref"):
+        if k in ("ref", "any", "callref", "ext"):
             return v.t != 0
         if k == "none":
             return z3.BoolVal(False)
@@ -1798,13 +1859,15 @@ class Engine:
                 return a.aux
             if ka == "cacheval":
                 return z3.Not(a.t[0])
-            if ka in ("ref", "list", "any", "deque", "callref"):
+            if ka in ("ref", "list", "any", "deque", "callref", "ext"):
                 return a.t == 0
             if ka in ("int", "bool", "func", "xint", "tuple", "str", "set"):
                 return z3.BoolVal(False)
         if ka == "none":
             return self.identical(b, a)
-        if ka in ("ref", "list", "any") and kb in ("ref", "list", "any"):
+        if ka in ("ref", "list", "any", "ext") and kb in ("ref", "list", "any", "ext"):
+            return a.t == b.t
+        if ka == "enum" and kb == "enum":
             return a.t == b.t
         raise OutsideSubset(f"`is` between {a.ty} and {b.ty}")
 
@@ -1819,6 +1882,8 @@ class Engine:
             return z3.And(a.aux == b.aux, z3.Or(a.aux, a.t == b.t))
         if ka == "none" or kb == "none":
             return self.identical(a, b)
+        if ka == "enum" and kb == "enum":
+            return a.t == b.t
         if ka == "slots" and kb == "slots":
             # obj.__slots__ is a class-level constant: equal iff same class
             return z3.BoolVal(a.t == b.t)
@@ -1880,6 +1945,14 @@ class Engine:
             return z3.Select(coll.t, to_int(x))
         if k == "tuple":
             return z3.Or([self.equal(x, it, st, None) for it in coll.t])
+        if k in ("dict", "emptydict"):
+            return z3.Select(self.as_dict(coll).t[0], to_int(x))
+        if k == "ext":
+            from .library import EXT_MODELS
+            m = EXT_MODELS.get((coll.ty.arg, "__contains__"))
+            if m is None:
+                raise OutsideSubset(f"no trusted contract for `in` on a {coll.ty.arg}")
+            return m(self, st, coll, x)
         raise OutsideSubset(f"`in` on {coll.ty}")
 
     def ev_IfExp(self, e, st):
@@ -2061,9 +2134,18 @@ class Engine:
             if okst is not None:
                 out.extend(self.call_abstract(con, [], e, okst, extra={"callee": fv.t}))
             return out
+        if fv.ty.kind == "ext":
+            from .library import EXT_MODELS
+            m = EXT_MODELS.get((fv.ty.arg, "__call__"))
+            if m is None:
+                raise OutsideSubset(f"no trusted contract for calling a {fv.ty.arg} (line {e.lineno})")
+            return m(self, e, st, fv)
         if fv.ty.kind != "func":
             raise OutsideSubset(f"call of a {fv.ty} at line {e.lineno}")
         t = fv.t
+        if isinstance(t, tuple) and t[0] == "ext":
+            from .library import EXT_MODELS
+            return EXT_MODELS[(t[1], t[2])](self, e, st, t[3])
         if isinstance(t, tuple):
             if t[0] == "static":
                 return self.call_function(t[1], [], e, st)
@@ -2142,7 +2224,7 @@ class Engine:
                 inner = Val(ty.arg, z3.IntVal(0)) if ty.arg.kind in ("int",) else Val(ty.arg, z3.IntVal(0))
                 return Val(ty, inner, z3.BoolVal(True))
             return Val(ty, v, z3.BoolVal(False))
-        if ty.kind in ("ref", "list", "any", "callref") and v.ty.kind == "none":
+        if ty.kind in ("ref", "list", "any", "callref", "ext") and v.ty.kind == "none":
             return Val(ty, z3.IntVal(0))
         if ty.kind == "callref" and v.ty.kind == "func":
             return Val(ty, z3.IntVal(id(v.t) % 1000003 + 1))
